@@ -62,6 +62,12 @@ def gen_case(seed):
                             "start": g["release"].get("start", 0)}
     w["faults"]["cut"] = None
     w["sim"]["loop_timeout"] = min(w["sim"]["loop_timeout"], 3000)
+    rr = random.Random(f"{seed}:c09:replication")
+    if kind == "greedy" and rr.random() < 0.35:
+        # --replication_factor: every job graph is loaded k times, each replica with its own arrival process
+        w["replication_factor"] = rr.choice([2, 3])
+        for g in w["graphs"]:
+            g["release"]["invocations"] = min(g["release"].get("invocations", 2), 2)
     return {"seed": seed, "world": w, "format": r.choice(["json", "yaml"]),
             # seed 0 is a seed like any other (and the one a falsy-check slip would lose)
             "random_seed": 0 if r.random() < 0.2 else r.randrange(1, 10 ** 6)}
@@ -107,6 +113,8 @@ def flag_lines(case, tmp, tag):
                       ("retract_schedules", pol.get("retract", False)),
                       ("release_taskgraphs", pol.get("release_taskgraphs", False))):
         lines.append(f"--{name}" if val else f"--no{name}")
+    if w.get("replication_factor", 1) > 1:
+        lines.append(f"--replication_factor={w['replication_factor']}")
     if pol["name"] == "ILP":
         lines.append(f"--ilp_goal={pol.get('goal', 'max_goodput')}")
     if pol["name"].startswith("TetriSched"):
